@@ -36,7 +36,8 @@ LEVEL_NOTE = ('Coq kernel + vm_compute; hand-written model (Model/Connect.v into
               'function is preserved for TOTAL assignments only: with a partial assignment a rewritten comparison gate '
               'can be more defined than the original (GT(U,1)=U but AND(U,NOT 1)=0; proved witness '
               'C14_partial_assignments_differ; on three-valued states the rules refine, '
-              'C14_rules_three_valued_refine). Statements are about Eval; the evaluators are tied to Eval by C01')
+              'C14_rules_three_valued_refine). arity_ok is needed too: a comparison gate with three operands has no value but '
+              'its conversion has one (proved witness C14_arity_needed). Statements are about Eval; the evaluators are tied to Eval by C01')
 TECHNIQUE = ('Coq proof: shape lemma for one convert_gate (three kinds of steps), forward simulation of Eval per step by '
              'a congruence lemma (Eval_redefine: induction on derivations, no rank needed), induction over the snapshot '
              'loop with invariants indexed by the unvisited entries, converse direction from existence '
